@@ -277,4 +277,11 @@ def r_enum(ctx):
     repo_idioms(ctx, "C11.R5", ('server', 'twisted', 'connection', 'context'))
 
 
-RULES = [("C11.R1", r1), ("C11.R2", r2), ("C11.R3", r3), ("C11.R4", r4), ("C11.R5", r_enum)]
+def r6(ctx):
+    """hostile datagrams under the (spoofed) address of an established client: nothing of the connection's state - receive
+    windows, liveness clock, ack processing - may move before the datagram authenticated (shared obligation C01.R4), else a
+    forged header with a garbage body makes the honest client's next datagrams look like duplicates"""
+    c01.r4(_Sub(ctx, "C11.R6"))
+
+
+RULES = [("C11.R1", r1), ("C11.R2", r2), ("C11.R3", r3), ("C11.R4", r4), ("C11.R5", r_enum), ("C11.R6", r6)]
